@@ -29,9 +29,17 @@ NOT a minimiser: no theorem); `R[0..L]` of common length `n`; the root exact on 
 the Gram block (`QRModel.ExactRoots`, implied by `∀ x ≥ 0, sqrt x · sqrt x = x`; decidable at `ℚ`); `R[1..L]` linearly
 independent (`FullRank`).
 
-NOT proved here: the refinement of the BiCG part of BiCGStab(1) to BiCGStab (`alpha`, `beta`; the codes differ in when a
-breakdown is noticed and in `<` / `<=` against the threshold) — the harness op `bicgstabl_vs_bicgstab` compares the REAL
-solvers exactly instead; polynomial optimality over the whole Krylov space and finite termination of BiCGStab(L).
+* `bicgstabl_L1_is_bicgstab` — ONE PASS of BiCGStab(1) (`BiCGStabL.body`, `L = 1`, `delta ≤ 0`) refines one pass of
+  BiCGStab (`BiCGStab.body`, `Model/SolverBiCGStab.lean`): related states (`Rel1`: `R[0] = r`, `Rt = rh`, `zeta = res`,
+  `U[0] = p − omega·v`, `rho0 = rho1`, same `alpha`, `omega`, `iter`, and the `x` label `done:` would hand back is bicgstab's
+  `x`) go to related states (or both leave after the half step with the same `(iter, res, x)`), PROVIDED the bicgstabl pass
+  returns normally (it throws at once on a zero `rho1` / `sigma` where bicgstab goes on for a pass) and the norm after the
+  `alpha` half step is not exactly the threshold (`<=` in bicgstab.hpp, `<` in bicgstabl.hpp); `A'` linear, `P` linear for
+  right preconditioning; `bicgstabl_L1_init_rel`: the two `operator()`s enter their loops in related states.
+
+NOT proved here: the induction over the whole loop (a corollary of the pass theorem under the per-pass side conditions,
+not written out; the harness op `bicgstabl_vs_bicgstab` compares the REAL solvers over whole calls exactly), the case
+`delta > 0`, polynomial optimality over the whole Krylov space and finite termination of BiCGStab(L).
 -/
 namespace Amgcl.C05h
 open Amgcl Amgcl.Solver Amgcl.Solver.BiCGStabL Amgcl.Solver.QR
@@ -299,6 +307,57 @@ theorem bicgstabl_L1_is_bicgstab (prm : BiCGStabL.Params K) (hL : prm.L = 1) (hd
         show (sL'.w.U.get 0).getD i 0 = hh.p.getD i 0 - om * hh.v.getD i 0
         rw [u0, p2 i hi, hL, Finset.sum_range_one, hY1, q3, q4, e6, e1]
 
+/-- **the two loops start in related states**: `bicgstabl::operator()` up to the `for` loop (`init`) and
+`bicgstab::operator()` up to its loop (`check_after = false`) on the same `(A, P, f, x0)`, any work spaces -/
+theorem bicgstabl_L1_init_rel (prm : BiCGStabL.Params K) (prmB : BiCGStab.Params K) (hside : prmB.pside = prm.pside)
+    (hca : prmB.checkAfter = false) (sqrt : K → K) (A : CRS K) (P : Vec K → Vec K) (n : Nat) (hn : A.nrows = n)
+    (hPs : ∀ v, (P v).size = n) (hP : prm.pside = .right → Lin n P)
+    (ws : BiCGStabL.Work K) (wsB : BiCGStab.Work K) (f x0 : Vec K) (hx0 : x0.size = n) (epsT : K) :
+    Rel1 prm.pside P n (BiCGStabL.init prm stdIp sqrt A P ws f x0) (BiCGStab.init prmB stdIp sqrt A P wsB f x0 epsT) := by
+  have hB : (BiCGStabL.init prm stdIp sqrt A P ws f x0).w.B
+      = (match prm.pside with | .left => P (residual f A x0) | .right => residual f A x0) := by
+    unfold BiCGStabL.init; cases prm.pside <;> rfl
+  have hr : (BiCGStab.init prmB stdIp sqrt A P wsB f x0 epsT).w.r
+      = (match prm.pside with | .left => P (residual f A x0) | .right => residual f A x0) := by
+    unfold BiCGStab.init; rw [hside]; cases prm.pside <;> rfl
+  have hBsz : (match prm.pside with | .left => P (residual f A x0) | .right => residual f A x0).size = n := by
+    cases prm.pside
+    · exact hPs _
+    · show (residual f A x0).size = n; rw [residual_size', hn]
+  have hX : (BiCGStabL.init prm stdIp sqrt A P ws f x0).w.X = vclear n := by
+    unfold BiCGStabL.init; cases hs : prm.pside <;> simp only [] <;> rw [hs] at hBsz <;> simp only [] at hBsz <;> rw [hBsz]
+  have hU : (BiCGStabL.init prm stdIp sqrt A P ws f x0).w.U.get 0 = vclear n := by
+    unfold BiCGStabL.init; cases hs : prm.pside <;> simp only [] <;> rw [hs] at hBsz <;> simp only [] at hBsz <;>
+      rw [setF_same, hBsz]
+  have hR0 : (BiCGStabL.init prm stdIp sqrt A P ws f x0).w.R.get 0 = (BiCGStabL.init prm stdIp sqrt A P ws f x0).w.B := by
+    unfold BiCGStabL.init; cases prm.pside <;> simp only [setF_same, vcopy_eq]
+  have hRt : (BiCGStabL.init prm stdIp sqrt A P ws f x0).w.Rt = (BiCGStabL.init prm stdIp sqrt A P ws f x0).w.B := by
+    unfold BiCGStabL.init; cases prm.pside <;> simp only [vcopy_eq]
+  have hrh : (BiCGStab.init prmB stdIp sqrt A P wsB f x0 epsT).w.rh = (BiCGStab.init prmB stdIp sqrt A P wsB f x0 epsT).w.r := by
+    unfold BiCGStab.init; simp only [vcopy_eq]
+  refine ⟨by rw [hR0, hB, hr], by rw [hRt, hB, hrh, hr], ?_, rfl, rfl, ?_, by rw [hr]; exact hBsz, by rw [hX]; simp [vclear],
+    hx0, by rw [hU]; simp [vclear], Or.inl ⟨rfl, rfl, fun i _ => by rw [hU, vclear_getD]⟩⟩
+  · show nrm stdIp sqrt (BiCGStabL.init prm stdIp sqrt A P ws f x0).w.B = (BiCGStab.init prmB stdIp sqrt A P wsB f x0 epsT).res
+    have : (BiCGStab.init prmB stdIp sqrt A P wsB f x0 epsT).res
+        = nrm stdIp sqrt (BiCGStab.init prmB stdIp sqrt A P wsB f x0 epsT).w.r := by
+      unfold BiCGStab.init; simp only [hca, Bool.false_eq_true, if_false]
+    rw [this, hB, hr]
+  · show xOut prm.pside P (BiCGStabL.init prm stdIp sqrt A P ws f x0) = x0
+    unfold xOut finish
+    have hxx : (BiCGStabL.init prm stdIp sqrt A P ws f x0).x = x0 := rfl
+    cases hs : prm.pside with
+    | left =>
+      simp only [hX, hxx]
+      apply Vec.ext_getD (0 : K) (by rw [axpby_size, hx0]; simp [vclear])
+      intro i hi
+      rw [axpby_getD _ _ _ _ _ (by rw [axpby_size] at hi; exact hi), vclear_getD]; ring
+    | right =>
+      have hP' := hP hs
+      simp only [hX, hxx]
+      apply Vec.ext_getD (0 : K) (by rw [axpby_size, hx0, hP'.size])
+      intro i hi
+      rw [axpby_getD _ _ _ _ _ (by rw [axpby_size] at hi; exact hi), hP'.zero]; ring
+
 /-! ## non-vacuity over `ℚ` with the executable root `rsqrt` -/
 section examples
 
@@ -389,6 +448,45 @@ example : ∃ st', polyPart exPrm1 stdIp Amgcl.rsqrt (7/10) exA1 id 5 exSt1 = .o
   · rw [b]; decide +kernel
   · rw [c]; decide +kernel
 example := bicgstabl_L1_mr_minimises exPrm1 rfl Amgcl.rsqrt (7/10) 2 exSt1 rfl rfl
+
+-- BiCGStab(1) vs BiCGStab: a non-symmetric 2x2 system, right preconditioning with a diagonal matrix, first pass from the
+-- initial states (related by `bicgstabl_L1_init_rel`); the pass of the bicgstabl model returns normally without early exit
+private def exA : CRS ℚ := ⟨2, #[[(0, 2), (1, 1)], [(0, -1), (1, 3)]]⟩
+private def exM : CRS ℚ := ⟨2, #[[(0, 1/2)], [(1, 1/3)]]⟩
+private def exP : Vec ℚ → Vec ℚ := fun v => spmv 1 exM v 0 #[]
+private def exPrmB : BiCGStab.Params ℚ :=
+  { maxiter := 4, tol := 0, abstol := 0, nsSearch := false, pside := .right, checkAfter := false }
+private def exL0 : BiCGStabL.St ℚ := BiCGStabL.init exPrm1 stdIp Amgcl.rsqrt exA exP (Work.fresh 2) #[1, 2] #[0, 0]
+private def exB0 : BiCGStab.St ℚ := BiCGStab.init exPrmB stdIp Amgcl.rsqrt exA exP (BiCGStab.Work.fresh 2) #[1, 2] #[0, 0] 0
+
+theorem exP_lin : Lin 2 exP := Lin_of_PLin 2 exP (fun v => spmv_size' 1 0 exM v #[]) (PLin_spmv exM (by decide) #[])
+theorem exAp_lin : Lin 2 (Ap exPrm1.pside exP exA) :=
+  Ap_lin .right exP exA (by decide) rfl (fun v => spmv_size' 1 0 exM v #[]) (PLin_spmv exM (by decide) #[])
+theorem exRel0 : Rel1 exPrm1.pside exP 2 exL0 exB0 :=
+  bicgstabl_L1_init_rel exPrm1 exPrmB rfl rfl Amgcl.rsqrt exA exP 2 rfl (fun v => spmv_size' 1 0 exM v #[])
+    (fun _ => exP_lin) (Work.fresh 2) (BiCGStab.Work.fresh 2) #[1, 2] #[0, 0] rfl 0
+
+example : ∃ sL' sB', BiCGStabL.body exPrm1 stdIp Amgcl.rsqrt (7/10) exA exP 0 0 exL0 = .ok sL' ∧ sL'.done = false ∧
+    BiCGStab.body exPrm1.pside stdIp Amgcl.rsqrt exA exP 0 exB0 = .ok sB' ∧ Rel1 exPrm1.pside exP 2 sL' sB' := by
+  have h : (match BiCGStabL.body exPrm1 stdIp Amgcl.rsqrt (7/10) exA exP 0 0 exL0 with
+      | .ok s => decide (s.done = false) | _ => false) = true := by decide +kernel
+  have hne : ∀ s1 b, bicgStep exPrm1 stdIp Amgcl.rsqrt exA exP 0 0 { exL0 with rho0 := (-exL0.omega) * exL0.rho0 }
+      = .ok (s1, b) → s1.zeta ≠ 0 := by
+    have h2 : (match bicgStep exPrm1 stdIp Amgcl.rsqrt exA exP 0 0 { exL0 with rho0 := (-exL0.omega) * exL0.rho0 } with
+        | .ok (s1, _) => decide (s1.zeta ≠ 0) | _ => true) = true := by decide +kernel
+    intro s1 b hs
+    rw [hs] at h2
+    exact of_decide_eq_true h2
+  split at h
+  · rename_i sL' hL'
+    have hdn : sL'.done = false := of_decide_eq_true h
+    obtain ⟨sB', hB', hcase⟩ := bicgstabl_L1_is_bicgstab exPrm1 rfl (by decide) Amgcl.rsqrt (7/10) exA exP 2 exAp_lin
+      (fun _ => exP_lin) 0 0 exL0 sL' exB0 exRel0 hne hL'
+    rcases hcase with ⟨_, hr⟩ | ⟨hd', _⟩
+    · exact ⟨sL', sB', hL', hdn, hB', hr⟩
+    · rw [hdn] at hd'; cases hd'
+  · cases h
+example := @bicgstabl_L1_init_rel
 
 end examples
 
